@@ -135,4 +135,13 @@ def replay(chk, model, inputs, tips_matter):
     if 'error' in out:
         raise Inconclusive('replay: ' + out['error'])
     bad = bool(out.get('panicked')) or not out.get('same_next_header') or not out.get('same_header')
+    if not bad and not tips_matter:
+        # the same stop point with a block that also carries a Stake transaction the state-transition function did not register
+        # (what the persisted form says about stakes must be what the running node held, nothing derived from the block body)
+        req2 = dict(req, unregistered_stake=True)
+        out2 = harness.run_replay([req2], 'dev')[0]
+        if 'error' in out2:
+            raise Inconclusive('replay: ' + out2['error'])
+        if bool(out2.get('panicked')) or not out2.get('same_next_header') or not out2.get('same_header'):
+            return True, req2, out2
     return bad, req, out
